@@ -2,7 +2,7 @@ SPECIFICATION MCSpec
 CONSTANTS
   VS <- VS_T
   ParamSet <- PS_Q
-  MaxSteps = 7
+  MaxSteps = 6
   MaxRuns = 2
 INVARIANTS ItemsOK AcfOK CrossScope
 \* vacuity: on
